@@ -90,6 +90,19 @@ CLAIMED.update({
         design="DESIGN.md section 5, C14"),
 })
 
+CLAIMED.update({
+    "C01": dict(
+        text="Partial, per-function: Kani (full 8-bit domains, loop-free) runs the real generate_branch_instruction / generate_branch_instruction_alt against a recording shim and interprets the emitted branches on the flags a 6502 CMP / load produces: the branch reaches the label exactly when `a op b` holds, for every operator, signedness, a, b (signed orderings split into the overflow and non-overflow halves; the seven halves that are false today are recorded known findings with witness programs); the negate/switch operator tables of generate_condition_ex are semantically exact for all 16-bit operands; the operator tables handed to the Pratt parser follow C precedence; Verus shows csleep/load invalidate the generator's N/Z belief and label() resets it.",
+        note="NOT decided: composition of these pieces into whole-program semantic preservation (expression evaluation order, register/temporary liveness, deferred ++, flags belief elsewhere, loops/switch/calls, scoping) and the 'must be rejected with an error' clause. That needs an invariant over the entire generator and a semantics of the pest AST: out of reach for per-function contracts here.",
+        technique="contract-style full-domain model checking of extracted loop-free lowering code (Kani) + Verus contracts on statement generators",
+        design="DESIGN.md section 5, C01"),
+    "C15": dict(
+        text="Partial: the table-level mechanisms behind two of the listed rewrites are proved on the real code: `a < b` versus `b > a` and `if (c) A else B` versus `if (!c) B else A` rest on the negate/switch operator tables of generate_condition_ex, which Kani shows semantically exact for all operands (mirror and complement), and on the branch emitters being exact for every operator (shared with C01).",
+        note="NOT decided: commuting + & | ^ (generate_arithm canonicalisation), op= forms, ++x vs x += 1, for vs while, switch vs if-chain, register vs constant index, call vs inlined body: these are agreements between different lowering paths, i.e. whole-program semantics.",
+        technique="contract-style full-domain model checking of extracted loop-free code (Kani)",
+        design="DESIGN.md section 5, C15"),
+})
+
 NOT_APPLICABLE = {
     "C11": "no contract within reach: the property is about the comment/splice scanner in cpp::process (str::split*/byte slicing without vstd specifications), pest WHITESPACE/COMMENT rules (generated parser) and a relation between two whole compilations",
 }
